@@ -26,8 +26,8 @@ META = {
                  "model-based correspondence; reflected-by-construction boolean step checker applied to the implementation's observations",
     "design_ref": "DESIGN.md section 6 (C19)",
 }
-GEN = ["VersionsGen.v"]
-TARGETS = ["Gen/VersionsGen", "Spec/C19", "Model/Sessions", "Proofs/Sessions", "Proofs/SessionsSpec", "Props/C19", "Drv/C19Spec", "Drv/C19"]
+GEN = ["VersionsGen.v", "SessionsGen.v"]
+TARGETS = ["Gen/VersionsGen", "Gen/SessionsGen", "Spec/C19", "Model/Sessions", "Proofs/Sessions", "Proofs/SessionsSpec", "Props/C19", "Drv/C19Spec", "Drv/C19"]
 
 TRUSTED = [
     "Coq 8.16.1 kernel (coqc); coqchk re-check in the thorough tier",
@@ -495,8 +495,9 @@ def explore(ctx, model, spec):
         feed(hist, n, "exhaustive")
     flush()
     # two levels deeper over the 7 core operations (only the new, longer sequences)
-    for hist, n in exhaustive(ctx, depth + 2, core_alphabet()):
-        if n > depth:
+    stride = 1 if (ctx.thorough or ctx.escalated) else 3      # quick: every third of the longest core sequences
+    for j, (hist, n) in enumerate(exhaustive(ctx, depth + 2, core_alphabet())):
+        if n > depth and (n < depth + 2 or j % stride == 0):
             feed(hist, n, "exhaustive-core")
     flush()
     for i, (hist, n) in enumerate(seeded(ctx, ctx.budget(400, 6000), 200)):
